@@ -270,9 +270,10 @@ pub fn run(report: &Report, budget: &Budget) {
     let st = hist::explore(report, &hb, "C14", depth, thorough, false, thorough, &hist_oracle, None, None);
     hist::write_stats(report, &st, depth);
     // (a) re-backup of every C01 input
-    // (quick: the structure sweep at hunk sizes 1 and 1000; size 2 is left to the thorough tier)
+    // (quick: the structure sweep at hunk sizes 1 and 1000; size 2, the 10000-hunk tree, the 20 MiB
+    // file and the 700-entry directory are left to the thorough tier)
     let f = |c: &crate::c01::Case, t: &Tree, scratch: &Scratch| {
-        if !thorough && c.sweep == "structure" && c.opts.hunk == 2 {
+        if !thorough && ((c.sweep == "structure" && c.opts.hunk == 2) || c.sweep == "rollover" || c.tag.starts_with("large: 20 MiB") || c.tag.starts_with("edges: 700")) {
             return Vec::new();
         }
         judge_rebackup(t, &c.opts, &c.tag, scratch)
